@@ -76,6 +76,11 @@ CLAIMED['C19'] = dict(design='5 (C19), 2', note='trusted: MIRSE MIR semantics + 
     'sequentialised with arbitrary message order, progress bar / panic hook stubbed, merge table captured at SerializeMsgPack::save); hash iteration in '
     'insertion order except that max_by_key over the statistics table may return any of the tied maximal pairs; oracle = independent recount of '
     'adjacent-pair frequencies after every merge; exhausted-corpus defect repaired by fix commit a0cb480')
+CLAIMED['C08'] = dict(design='5 (C08), 2', note='trusted: MIRSE MIR semantics + std adaptor models (enumerate / take / skip / step_by / filter_map); sources are in-memory '
+    'generators that log the global pull order; PipelineIterator::pipe, BufferedIterator::buffered and tensorized() are replaced by their specifications '
+    '(order-preserving map / identity / opaque pairing) which are decided by the C05, C09 and C17 checks, so worker count, buffer size and schedule do not '
+    'appear in the encoding; the native cross-check runs the real loader (verif hook c1c1cee) with 0 and 3 workers and buffer sizes 1 and 4 and random '
+    'whitespace corruption to expose the per-item seeds; skip-offset overflow repaired by fix commit 18db6b9')
 NOT_YET = 'check not built yet in this session (work in progress, see DESIGN.md section 6 for the order)'
 NA = {}
 
@@ -109,7 +114,7 @@ m = {
     'setup_cmd': './setup.sh',
     'hooks': {'guard': 'cargo feature `verif` of text-utils', 'enable': 'cargo build --features text-utils/verif (replay binary); MIR dump uses the unhooked code paths',
               'baseline_off_cmd': 'cd /repo && cargo test --workspace --no-fail-fast --offline',
-              'source_commits': ['0908cb9', 'd5d76f6'], 'add_only': True},
+              'source_commits': ['0908cb9', 'd5d76f6', 'c1c1cee'], 'add_only': True},
     'engines': [
         {'name': 'MIRBMC', 'path': 'mirse/mirbmc.py', 'serves_properties': ['C05', 'C09'],
          'kind_free_text': 'bounded model checker for the thread protocols: transition relation generated from the MIR CFG of the worker closures, z3 QF_BV'},
